@@ -906,6 +906,7 @@ func (ex *Exec) frameCheck(rec *recorder, pos token.Pos) {
 	}
 	// collect allowed (key -> refs) from modifies items evaluated at entry
 	allowed := map[string][]string{}
+	allowedAll := map[string]bool{}
 	everything := false
 	sc := ex.ownCtx(ex.entry, pos)
 	for k, v := range ex.lets {
@@ -926,6 +927,10 @@ func (ex *Exec) frameCheck(rec *recorder, pos token.Pos) {
 			}
 			if item == "everything" {
 				everything = true
+				continue
+			}
+			if m := allGhostRe.FindStringSubmatch(item); m != nil {
+				allowedAll[heapKey("G$", m[1])] = true
 				continue
 			}
 			e, err := parseSpecExpr(item)
@@ -956,6 +961,9 @@ func (ex *Exec) frameCheck(rec *recorder, pos token.Pos) {
 	}
 	sort.Strings(keys)
 	for _, k := range keys {
+		if allowedAll[k] {
+			continue
+		}
 		srt := ex.eng.heapSortOf(k)
 		if strings.Contains(k, "#") {
 			// lock state fields are ghost-like: a function may leave its own locks as found
